@@ -19,6 +19,52 @@ def term_has(t, pred):
     return False
 
 
+def removal_precision(ctx, report, rule, b):
+    """remove_resource_record removes the given record and nothing else: the only removals are HashMap::remove(<per-owner map>,
+    <a &ResourceRecord>) and, optionally, dropping the owner's node once its map is_empty().  Dropping the node on any other
+    condition (e.g. `len() <= 1` without looking at which record is stored) loses a record that was not asked to be removed."""
+    prog = ctx.prog
+    fam = [b] + mu.closures_of(prog, b)
+    n_rec = 0
+    bad = []
+    for x in fam:
+        dom = mu.dominators(x)
+        defs = mu.defs_of(x)
+        for bi, t in mu.calls(x, r"HashMap::<K, V, S, A>::(remove|remove_entry)$"):
+            kt = x.ty(t["args"][1]["pl"]["t"])["s"] if t["args"][1].get("o") in ("copy", "move") else ""
+            if "ResourceRecord" in kt:
+                n_rec += 1
+            else:
+                bad.append("a per-owner map entry is removed by a key of type %s" % (kt or "?"))
+        for bi, t in mu.calls(x, r"HashMap::<K, V, S, A>::(clear|retain|drain)$"):
+            bad.append("the per-owner map is emptied with %s" % t["callee"]["def"].split("::")[-1])
+        for bi, t in mu.calls(x, r"radix_trie::.*::(remove|remove_prefix)$"):
+            # must be control-dependent on the true edge of `<map>.is_empty()`
+            guarded = False
+            for sb in dom[bi]:
+                sw = x.blocks[sb]["term"]
+                if sw["t"] != "switch" or sb == bi:
+                    continue
+                d = mu.single_def(defs, mu.op_local(sw["discr"]) if mu.op_local(sw["discr"]) is not None else -1)
+                if d is None or d[1] != "term" or not re.search(r"HashMap::<K, V, S, A>::is_empty$|HashMap<K, V, S, A>::is_empty$", d[2]["callee"]["def"] if d[2].get("callee") else ""):
+                    continue
+                false_t = [tg for v, tg in sw["arms"] if int(v) == 0]
+                if false_t and bi not in mu.reachable_from(x, false_t[0], avoid={sb}):
+                    guarded = True
+            if not guarded:
+                bad.append("the owner's whole node is dropped (%s) without the per-owner map being known to be empty" % t["callee"]["def"].split("::")[-1])
+    report.count()
+    if n_rec < 1:
+        bad.append("no HashMap::remove(<per-owner map>, &record) found")
+    if bad:
+        for m in sorted(set(bad)):
+            report.violate(Violation(report.key(b.qname, rule, "removal-precision", m[:40]), "%s:%d" % (b.file, b.line), rule,
+                                     "%s: remove_resource_record can remove records other than the one given: %s" % (rule, m)))
+    else:
+        report.nontriv("removal precision")
+        report.sample({"rule": rule, "fn": b.qname, "removes": "HashMap::remove(per-owner map, &record) only"})
+
+
 def run(ctx):
     prog = ctx.prog
     report = Report("C20", ctx, "R1 every record get_domain_resources yields passed DomainResourceFilter::match_filter (the only trie reads are "
@@ -270,6 +316,7 @@ def run(ctx):
         viol(report, "C20-R5", B["remove"], "removals", "records are also removed in %s" % sorted(removers - allowed))
     else:
         report.nontriv("removals")
+    removal_precision(ctx, report, "C20-R5", B["remove"])
     report.assumptions += ["behaviour over real elapsed time is not decided (histories with a wall clock); HashMap::insert keeping the old key "
                            "(first cache_flush / ttl fields of a re-received record) is value-level"]
     return report.finish()
